@@ -273,8 +273,11 @@ def m_to_string(ex, site, a):
     v = deref(ex, a[0])
     if isinstance(v, Agg) and v.ty == 'Cow': v = deref(ex, v.fields[0])
     if isinstance(v, (VecV, SliceRef)): return string_of(items_of(ex, v))
-    from .models_fmt import display_bytes
-    return string_of(display_bytes(ex, v, site.self_ty))
+    from .models_fmt import display_bytes, FmtErr, FMT_PANIC_TO_STRING
+    try:
+        return string_of(display_bytes(ex, v, site.self_ty))
+    except FmtErr:
+        raise Panic('display', FMT_PANIC_TO_STRING, ex.where())
 
 
 @model('str::to_string', 'str::to_owned', 'String::from_str', 'str::into_string', 'Cow::into_owned', 'Cow::to_string')
